@@ -1288,6 +1288,16 @@ func (r *Runner) step(s Step) error {
 			return fmt.Errorf("unexpected error: %v", err)
 		}
 		r.markDurable()
+		if s.Flag {
+			// inserted by the generator before an ingest/excise (Profile.DurableIngest /
+			// FlushBeforeIngest: classes excluded as known findings)
+			r.C["flush-inserted-before-structural-op"]++
+		}
+		if s.Flag {
+			// inserted by the generator before an ingest/excise (Profile.DurableIngest /
+			// FlushBeforeIngest: classes excluded as known findings)
+			r.C["flush-inserted-before-structural-op"]++
+		}
 	case "compact":
 		a, b := s.A, s.B
 		if a == "" || b == "" || cmpKey(a, b) >= 0 {
